@@ -541,10 +541,10 @@ Definition fsame_up_to_order (a b : list (list str * nat)) : bool :=
 
 Definition shared_rules : list string :=
   ["as_duration"; "combine_durations"; "convert_money"; "division_cleanup"; "duration_parse"; "find_numbers_percent";
-   "find_total_from_percent"; "number_of"; "number_off"; "number_on"; "percent_calculator"; "to_duration"; "small_date"]%string.
+   "find_total_from_percent"; "number_of"; "number_off"; "number_on"; "percent_calculator"; "time_with_timezone"; "to_duration";
+   "small_date"]%string.
 Definition rules_only_en : list string :=
-  ["at_date"; "convert_timezone"; "dynamic_type_convert"; "from_unixtime"; "number_type_convert"; "time_with_timezone";
-   "to_unixtime"]%string.
+  ["at_date"; "convert_timezone"; "dynamic_type_convert"; "from_unixtime"; "number_type_convert"; "to_unixtime"]%string.
 
 Definition skel_of (lang : str) (n : string) : list (list str) :=
   match rule_named lang n with Some r => skeleton r | None => [] end.
